@@ -682,6 +682,51 @@ def check_skeleton(res, pkg, expected_path=None, files=None):
     return not diffs
 
 
+GOMOD_EXPECTED = {"module": "go.linecorp.com/garr", "go": "1.23.5", "require": ["github.com/valyala/fastrand v1.1.0"]}
+
+
+def check_gomod(res):
+    """the language version (timer-channel semantics of Go >= 1.23, which the pool model assumes) and the one dependency (fastrand: the
+    adders' probe source, replaced by a scripted one in the controlled runs) are part of what was modelled; formatting is irrelevant"""
+    try:
+        txt = open(os.path.join(REPO, "go.mod")).read()
+    except OSError as e:
+        res.add(Problem("correspondence", f"go.mod cannot be read: {e}", None, key="skeleton"))
+        return False
+    txt = re.sub(r"//[^\n]*", "", txt)
+    got = {"module": None, "go": None, "require": [], "other": []}
+    block = None
+    for line in txt.split("\n"):
+        l = " ".join(line.split())
+        if not l:
+            continue
+        if block:
+            if l == ")":
+                block = None
+            elif block == "require":
+                got["require"].append(l)
+            else:
+                got["other"].append(block + " " + l)
+            continue
+        w = l.split(" ", 1)
+        if len(w) == 2 and w[1] == "(":
+            block = w[0]
+        elif w[0] == "module" and len(w) == 2:
+            got["module"] = w[1].strip('"')
+        elif w[0] == "go" and len(w) == 2:
+            got["go"] = w[1]
+        elif w[0] == "require" and len(w) == 2:
+            got["require"].append(w[1])
+        else:
+            got["other"].append(l)  # replace / exclude / toolchain / godebug ... : none was there when the models were written
+    got["require"].sort()
+    if got["module"] != GOMOD_EXPECTED["module"] or got["go"] != GOMOD_EXPECTED["go"] or got["require"] != GOMOD_EXPECTED["require"] or got["other"]:
+        res.add(Problem("correspondence", "go.mod no longer matches the module file the models were written against (language version / dependencies / directives)",
+                        {"modelled": GOMOD_EXPECTED, "now": got}, key="skeleton"))
+        return False
+    return True
+
+
 def write_skeletons():
     """(maintenance, run by hand after the models were brought up to date with the source) regenerate harness/skeleton/*.expected"""
     res = Result("C00", "quick", 0)
